@@ -47,8 +47,8 @@ fn registry() -> Vec<Box<dyn FamilyDyn>> {
     ]
 }
 
-/// (family, share of the wall-clock budget)
-const FAMILIES: [(&str, f64); 8] = [("toneshot", 0.3), ("ttime", 0.3), ("tmpsc_thr", 0.7), ("tnotify", 1.0), ("ttask", 1.5), ("twatch", 3.0), ("tmpsc", 3.5), ("tlock", 4.0)];
+/// (family, share of the wall-clock budget of the thorough tier ~ measured executions)
+const FAMILIES: [(&str, f64); 8] = [("toneshot", 0.3), ("ttime", 0.3), ("tmpsc_thr", 2.5), ("tnotify", 1.5), ("ttask", 3.3), ("twatch", 8.0), ("tmpsc", 8.0), ("tlock", 10.0)];
 
 fn family(name: &str) -> Box<dyn FamilyDyn> {
     registry().into_iter().find(|f| f.name() == name).unwrap_or_else(|| {
